@@ -271,6 +271,18 @@ def stepLine (s : DState) (w : List String) : DState × String :=
     | ["restart"] => ({ s with encs := upsert s.encs e { slot with enc := slot.enc.restart } }, "ok")
     | ["seq"] => (s, s!"seq {slot.enc.seqc}")
     | ["ids"] => (s, s!"ids {slot.enc.dev} {slot.enc.stream}")
+    | "encodethrow" :: mn :: mx :: k :: ids =>
+      -- an encode call left by an exception of the caller's iterator after `k` packets were put: no frames are handed out; the
+      -- encoder keeps what `putPacket` did to the counter and the message type (the next call resets the rest)
+      let c : Ctx := ⟨nat! mn, nat! mx⟩
+      let batch := ids.map (lookup s.pkts)
+      if !c.ok then (s, "bad-ctx")
+      else if batch.any (fun p => p.payload.isNone) || nat! k >= batch.length then (s, "bad-batch")
+      else
+        let pre := batch.take (nat! k)
+        let s0 : Enc := { slot.enc with closed := [], cur := none, tmpl := none }
+        let st := ((List.range pre.length).zip pre).foldl (putPacket c) s0
+        ({ s with encs := upsert s.encs e { slot with enc := { slot.enc with seqc := st.seqc, curMt := st.curMt } } }, "threw")
     | kind :: mn :: mx :: ids =>
       let c : Ctx := ⟨nat! mn, nat! mx⟩
       if kind == "encodell" then
